@@ -61,7 +61,7 @@ def gen(seed, run, tier='quick'):
     }
     kinds = list(w)
     weights = [w[k] for k in kinds]
-    n_ops = rng.randrange(4, MAX_OPS + 1)
+    n_ops = rng.randrange(4, (70 if tier == 'thorough' else MAX_OPS) + 1)
     ops = []
     for _ in range(rng.choice([1, 2, 2])):
         ops.append(['base_type'] + [rng.randrange(1 << 16) for _ in range(4)])
